@@ -942,14 +942,17 @@ type kickAction struct {
 
 var errEmptyId = group.ProtocolError("empty id")
 
+// remove removes every occurrence of v from l (a permission may be listed
+// more than once, for example when it comes from a token).
 func remove(v string, l []string) []string {
-	for i, w := range l {
-		if v == w {
-			l = append(l[:i], l[i+1:]...)
-			return l
+	j := 0
+	for _, w := range l {
+		if v != w {
+			l[j] = w
+			j++
 		}
 	}
-	return l
+	return l[:j]
 }
 
 func addnew(v string, l []string) []string {
